@@ -28,9 +28,11 @@ pub fn run(kind: &str, src: &str) -> Outcome {
         probe!(format!("prod_precedence({})", p), grm.prod_precedence(pidx));
         probe!(format!("action({})", p), grm.action(pidx));
         probe!(format!("action_span({})", p), grm.action_span(pidx));
+        probe!(format!("prod_span({})", p), grm.prod_span(pidx));
     }
     for r in 0..usize::from(grm.rules_len()) {
         let ridx = RIdx(r as u32);
+        probe!(format!("rule_name_span({})", r), grm.rule_name_span(ridx));
         probe!(format!("rule_to_prods({})", r), grm.rule_to_prods(ridx));
         probe!(format!("rule_name_str({})", r), grm.rule_name_str(ridx));
         probe!(format!("actiontype({})", r), grm.actiontype(ridx));
